@@ -15,6 +15,7 @@ class Ctx:
         self.viols = []          # violations attributed to this property
         self.other = {}          # monitor -> count of violations of other properties seen (informative)
         self.unexplained = {}    # ... of which not covered by a known finding of the owning property
+        self.drift_guard = []    # replay families whose behaviours the real code could not follow (see finish)
         self.design = []         # design-level TLC runs
         self.trace_stats = {"states": 0, "transitions": 0, "scenarios": 0, "events": 0, "files": 0}
         self.replayed = 0        # behaviours / operations replayed into the real code
@@ -126,6 +127,9 @@ class Ctx:
         L.write_evidence(self.prop, self.tier, self.seed, self.level, cov, self.assumptions, wall, len(unknown))
         if unknown:
             return 1
+        if self.drift_guard:
+            # the code did not follow the model's schedules and no monitor says why: the binding is broken, not the property
+            raise L.MachineryError("; ".join(self.drift_guard))
         print("OK property=%s tier=%s states=%d traces=%d replayed=%d wall=%.0fs" % (self.prop, self.tier, cov["states"], cov["traces_validated_against_impl"], self.replayed, wall))
         return 0
 
@@ -547,9 +551,41 @@ def c13(ctx):
                      "packet (incl. INIT and COOKIE-ECHO) injected before the genuine one; emission rule monitored on every packet of every run")
 
 
+def shutdown_family(ctx):
+    """Shutdown.tla engine slice: exhaustive TLC (who calls x data outstanding x loss / re-ordering / T2 / T3) and
+    breadth-first exported behaviours replayed content-keyed on real associations, judged by ObsTrace (C08)."""
+    binp = ctx.harness()
+    for c in (("a", "b") if ctx.quick else ("a", "b", "c")):
+        ctx.tlc_design("MC_Shutdown", "MC_Shutdown_%s.cfg" % c, workers=8, timeout=1800, heap="8g")
+    paths = []
+    for d, cap in ((10, 320),) if ctx.quick else ((8, None), (10, 6000), (12, 6000)):
+        paths.append(tlc_behaviours(ctx, "MC_Shutdown", "MC_Shutdown_emit%d.cfg" % d, 1, d, workers=4, bfs=True, cap=cap, timeout=1200)[0])
+    allb = os.path.join(ctx.scr.mkdir("sr"), "behaviours.jsonl")
+    with open(allb, "w") as f:
+        for p in paths:
+            f.write(open(p).read())
+    nb = sum(1 for _ in open(allb))
+    out = ctx.scr.mkdir("sr")
+    nsh = 8 if ctx.quick else 16
+    ps = L.run_shards(binp, "shut-replay", out, nsh, {"VF_IN": allb, "VF_NSHARDS": nsh, "VF_NA": 2, "VF_NB": 1})
+    for p in ps:
+        if p.returncode != 0:
+            raise L.MachineryError("shut-replay failed: " + (p.stdout + p.stderr)[-2000:])
+    drift = sum(json.load(open(f))["drift"] for f in glob.glob(os.path.join(out, "sr-*.json")))
+    ctx.replayed += nb
+    ctx.distinct.add(("shutdown-schedules",))
+    ctx.notes.append("Shutdown.tla behaviours replayed: %d, of which the real code could not follow %d (drift, not a verdict)" % (nb, drift))
+    if drift * 4 > nb:   # judged at the end: only a machinery failure if no monitor explains it
+        ctx.drift_guard.append("more than 25%% of the Shutdown behaviours drifted (%d of %d): model and code disagree on the protocol" % (drift, nb))
+    if len(ctx.samples) < 4:
+        ctx.samples.append({"shutdown_schedule": open(allb).readline()[:500]})
+    return sorted(glob.glob(os.path.join(out, "sr-*.ndjson")))
+
+
 @check("C08", ["C08_"])
 def c08(ctx):
-    files = directed_traces(ctx, "shutdown", 12 if ctx.quick else 16, {"VF_FULL": "0" if ctx.quick else "1"})
+    files = shutdown_family(ctx)
+    files += directed_traces(ctx, "shutdown", 12 if ctx.quick else 16, {"VF_FULL": "0" if ctx.quick else "1"})
     ctx.exhaustive = not ctx.quick
     ctx.notes.append("shutdown: who calls (A, B, both) x queued messages x every <=1 (quick: + sampled pairs; thorough: all pairs) loss/duplication "
                      "decision over (kind, sender, ordinal) of DATA/SACK/SHUTDOWN/SHUTDOWN-ACK/SHUTDOWN-COMPLETE")
@@ -587,7 +623,7 @@ def reconfig_family(ctx, light=False):
     ctx.distinct.add(("reconfig-schedules",))
     ctx.notes.append("Reconfig.tla behaviours replayed: %d, of which the real code could not follow %d (drift, not a verdict)" % (nb, drift))
     if drift * 5 > nb:
-        raise L.MachineryError("more than 20%% of the Reconfig behaviours drifted (%d of %d): model and code disagree on the protocol" % (drift, nb))
+        ctx.drift_guard.append("more than 20%% of the Reconfig behaviours drifted (%d of %d): model and code disagree on the protocol" % (drift, nb))
     if len(ctx.samples) < 4:
         ctx.samples.append({"reconfig_schedule": open(allb).readline()[:500]})
     return sorted(glob.glob(os.path.join(out, "rr-*.ndjson")))
